@@ -359,6 +359,15 @@ Fresh(st) == [st EXCEPT !.out = "", !.base = IF st.null THEN 0 ELSE st.base + By
 Unstack(s1, st) == [s1 EXCEPT !.out = st.out, !.base = st.base, !.null = st.null]
 
 \* entering / leaving a loop-like construct of `len` iterations; counting one body run
+\*   m.nsvals the values held by the local namespaces along the chain of (isolated) contexts
+\*            at the moment they were, by a rough size proxy, largest - the harness weighs
+\*            them with sys.getsizeof
+RECURSIVE VSize(_), VSizeSum(_)
+VSize(v) == CASE v.t = "str" -> 50 + Len(v.v) [] v.t = "arr" -> 60 + 8 * Len(v.v) [] OTHER -> 28
+VSizeSum(vs) == IF vs = <<>> THEN 0 ELSE VSize(vs[1]) + VSizeSum(Tail(vs))
+LocalVals(st) == st.carryvals \o [i \in DOMAIN st.locals |-> st.locals[i][2]]
+NoteLocals(st) == IF VSizeSum(LocalVals(st)) > VSizeSum(st.m.nsvals) THEN [st EXCEPT !.m.nsvals = LocalVals(st)] ELSE st
+
 LoopEnter(st, len) ==
   LET lens == Append(st.lens, len) IN
   [st EXCEPT !.lens = lens,
@@ -459,12 +468,12 @@ ExecNode(n, st) ==
          ELSE Write(st, OutText(v, st))
     [] n.k = "assign" ->
          LET v == Eval(n.e, st) IN
-         IF IsErr(v) THEN Fail(st, v.cls) ELSE [st EXCEPT !.locals = HPut(@, n.n, v)]
+         IF IsErr(v) THEN Fail(st, v.cls) ELSE NoteLocals([st EXCEPT !.locals = HPut(@, n.n, v)])
     [] n.k = "capture" ->
          LET s1 == ExecBlock(n.body, Fresh(st)) IN
          IF s1.err # "" THEN Unstack(s1, st)
-         ELSE [Unstack(s1, st) EXCEPT
-                         !.locals = HPut(@, n.n, IF st.cfg.autoescape THEN Safe(s1.out) ELSE Str(s1.out))]
+         ELSE NoteLocals([Unstack(s1, st) EXCEPT
+                         !.locals = HPut(@, n.n, IF st.cfg.autoescape THEN Safe(s1.out) ELSE Str(s1.out))])
     [] n.k = "if" ->
          ExecElifs(<<[c |-> n.c, body |-> n.body]>> \o n.elifs, n.else, st)
     [] n.k = "unless" ->
@@ -629,7 +638,7 @@ IncludeIter(nodes, key, items, i, nsIdx, st) ==
 
 \* a context that sees only `ns` and the global layers (RenderContext.copy)
 Isolated(st, ns, disabled) ==
-  [Fresh(st) EXCEPT !.locals = <<>>, !.scopes = <<>>, !.layers = <<ns>> \o st.layers,
+  [Fresh(st) EXCEPT !.locals = <<>>, !.carryvals = LocalVals(st), !.scopes = <<>>, !.layers = <<ns>> \o st.layers,
              !.counters = <<>>, !.cycles = <<>>, !.stop = <<>>, !.loops = <<>>, !.macros = <<>>,
              !.disabled = disabled, !.cdepth = st.cdepth + 1, !.intr = "", !.stacks = <<>>]
 
@@ -794,7 +803,7 @@ InitState(tpls, data, cfg) ==
    cycles |-> <<>>, stop |-> <<>>, loops |-> <<>>, err |-> "", intr |-> "",
    cfg |-> cfg, tpls |-> tpls, macros |-> <<>>, disabled |-> {}, cdepth |-> 0,
    stacks |-> <<>>, tname |-> "", base |-> 0, null |-> FALSE, lens |-> <<>>, lpcnt |-> <<>>,
-   m |-> [peak |-> 0, prod |-> 0, iters |-> 0]]
+   m |-> [peak |-> 0, prod |-> 0, iters |-> 0, nsvals |-> <<>>], carryvals |-> <<>>]
 
 \* data: sequence of global layers in priority order, each an ordered hash
 Render(tpls, main, data, cfg) ==
@@ -808,5 +817,5 @@ Render(tpls, main, data, cfg) ==
 Measure(tpls, main, data, cfg) ==
   LET s == ExecTemplate(HGet(tpls, main), [InitState(tpls, data, cfg) EXCEPT !.tname = main]) IN
   [err |-> IF s.err # "" THEN s.err ELSE IF s.intr # "" THEN "LiquidSyntaxError" ELSE "",
-   out |-> s.out, outbytes |-> Bytes(s.out), peak |-> s.m.peak, prod |-> s.m.prod, iters |-> s.m.iters]
+   out |-> s.out, outbytes |-> Bytes(s.out), peak |-> s.m.peak, prod |-> s.m.prod, iters |-> s.m.iters, nsvals |-> s.m.nsvals]
 =============================================================================
